@@ -231,6 +231,23 @@ func checkC24(c *Ctx, r *Report) {
 	r.rule("C24.R1", "every sensitive-operation call site reachable from Handle has passed an allow* check for an authorising action (local / every caller / filter-then-forward)", 19)
 	r.rule("C24.R2", "the failing branch of every allow* check answers with an *_AUTHORIZATION_FAILED code before returning", 22)
 	r.rule("C24.R3", "the topic handed to getPartitionLog in produce/fetch is the value the allow check was applied to", 2)
+	r.rule("C24.R8", "resource names are matched byte-exactly: in acl.nameMatches neither the rule's name nor the requested name passes through a case-folding function (Kafka topic and group names are case-sensitive: a grant on `orders` says nothing about `Orders`)", 1)
+	r.Explanation += " (R8) acl.nameMatches compares resource names without case folding (no strings.EqualFold / ToLower / ToUpper / unicode mapping on a value derived from its parameters)."
+	if nm := needFn(m, r, "C24.R8", pkgACL, "nameMatches"); nm != nil {
+		r.fn(nm)
+		bad := ""
+		for _, call := range callsIn(nm) {
+			cn := calleeName(call.Common())
+			if nameMatches(cn, "strings.EqualFold", "strings.ToLower", "strings.ToUpper", "strings.ToTitle", "strings.Title", "strings.ToLowerSpecial", "strings.ToUpperSpecial", "strings.Map", "bytes.EqualFold", "bytes.ToLower", "bytes.ToUpper") || strings.HasPrefix(cn, "unicode.") || strings.HasPrefix(cn, "golang.org/x/text/") {
+				bad = cn + " at " + m.Pos(call.Pos())
+			}
+		}
+		if bad == "" {
+			r.ok("C24.R8", "acl.nameMatches compares names without case folding", m.Pos(nm.Pos()), "")
+		} else {
+			r.viol("C24.R8", "acl.nameMatches compares names without case folding", m.Pos(nm.Pos()), "resource names go through "+bad+": a principal granted `orders` is authorised for the distinct resource `Orders` (and every other case variant)")
+		}
+	}
 
 	root := needFn(m, r, "C24.R1", pkgBroker, "(*handler).Handle")
 	if root == nil {
